@@ -42,6 +42,12 @@ type inflight struct {
 	special bool
 
 	waitOn *mOO
+
+	// What the real call did (set by the world before the model runs);
+	// only consulted where the specification admits two answers.
+	obsBlocked string
+	obsMain    nfsv4.Nfsstat4
+	obsHave    bool
 }
 
 func (m *model) issue(op *opSpec) (*inflight, outcome) {
@@ -555,17 +561,7 @@ func (m *model) finishOpenOK(f *inflight) outcome {
 		if !isOK {
 			return fmt.Errorf("GETFH after OPEN failed")
 		}
-		fh := hex.EncodeToString(g.Resok4.Object)
-		if leaf.fh == "" {
-			if m.usedFH[fh] || fh == m.rootFH {
-				return fmt.Errorf("new file got file handle %s, which was used before", fh)
-			}
-			m.usedFH[fh] = true
-			leaf.fh = fh
-		} else if fh != leaf.fh {
-			return fmt.Errorf("GETFH after OPEN returned %s, the file's handle is %s", fh, leaf.fh)
-		}
-		return nil
+		return m.learnFH(leaf, hex.EncodeToString(g.Resok4.Object))
 	}}, capture(f, last))
 	return o
 }
@@ -1226,7 +1222,7 @@ func (m *model) runIO(f *inflight) outcome {
 					return o
 				}
 				f.leaf = f.fh.leaf
-				if h := m.held()[f.leaf.idx]; f.leaf.name == "" && h[0]+h[1] == 0 {
+				if m.deadLeaf(f, f.leaf) {
 					// Unlinked and no longer opened by anyone: only the
 					// not yet finalized CLOSE keeps the handle resolvable.
 					o := f.fin(nfsv4.NFS4ERR_STALE, "file is unlinked and closed")
@@ -1276,6 +1272,12 @@ func (m *model) runIO(f *inflight) outcome {
 		case "io":
 			l := f.leaf
 			var chk check
+			if f.special && op.Kind == kSetattr {
+				if m.deadLeaf(f, l) {
+					m.mark("setattr_on_file_that_died_while_parked")
+					return f.fin(nfsv4.NFS4ERR_STALE, "file was unlinked and closed before the attributes were set")
+				}
+			}
 			switch op.Kind {
 			case kRead:
 				var want []byte
@@ -1336,6 +1338,25 @@ func (m *model) runIO(f *inflight) outcome {
 	}
 }
 
+// deadLeaf reports whether a file is unlinked and no longer held open.
+// While other requests are in flight the server may still hold the file
+// open for a moment (closes are carried out when a request returns), so
+// then both answers are accepted and the model follows the server.
+func (m *model) deadLeaf(f *inflight, l *mLeaf) bool {
+	h := m.held()[l.idx]
+	if l.name != "" || h[0]+h[1] != 0 {
+		return false
+	}
+	if m.otherFlights > 0 && f.obsHave {
+		m.mark("dead_file_probe_while_requests_in_flight")
+		if f.obsBlocked != "" {
+			return false
+		}
+		return f.obsMain == nfsv4.NFS4ERR_STALE
+	}
+	return true
+}
+
 // ---------------------------------------------------------------------
 // Namespace operations.
 // ---------------------------------------------------------------------
@@ -1364,16 +1385,26 @@ func (m *model) runRemove(f *inflight) outcome {
 	return f.fin(ok, "removed")
 }
 
-func getfhCheck(idx int, want func() string) check {
+func (m *model) learnFH(leaf *mLeaf, fh string) error {
+	if leaf.fh == "" {
+		if m.usedFH[fh] || fh == m.rootFH {
+			return fmt.Errorf("new file got file handle %s, which was used before", fh)
+		}
+		m.usedFH[fh] = true
+		leaf.fh = fh
+	} else if fh != leaf.fh {
+		return fmt.Errorf("GETFH returned %s, the file's handle is %s", fh, leaf.fh)
+	}
+	return nil
+}
+
+func (m *model) getfhCheck(idx int, leaf *mLeaf) check {
 	return check{"C18", func(res *nfsv4.Compound4res) error {
 		g, isOK := res.Resarray[idx].(*nfsv4.NfsResop4_OP_GETFH).Opgetfh.(*nfsv4.Getfh4res_NFS4_OK)
 		if !isOK {
 			return fmt.Errorf("GETFH failed")
 		}
-		if fh := hex.EncodeToString(g.Resok4.Object); fh != want() {
-			return fmt.Errorf("GETFH returned %s, expected %s", fh, want())
-		}
-		return nil
+		return m.learnFH(leaf, hex.EncodeToString(g.Resok4.Object))
 	}}
 }
 
@@ -1389,7 +1420,7 @@ func (m *model) runLookup(f *inflight) outcome {
 	o := f.fin(ok, "found")
 	o.sts = append(o.sts, ok)
 	o.pure = true
-	o.checks = append(o.checks, getfhCheck(2, func() string { return l.fh }))
+	o.checks = append(o.checks, m.getfhCheck(2, l))
 	return o
 }
 
@@ -1413,7 +1444,7 @@ func (m *model) runPutfh(f *inflight) outcome {
 			if l.name == "" {
 				m.mark("putfh_unlinked_open_file")
 			}
-			o.checks = append(o.checks, getfhCheck(1, func() string { return l.fh }))
+			o.checks = append(o.checks, m.getfhCheck(1, l))
 		}
 	}
 	o.pure = true
